@@ -67,5 +67,18 @@ PROP = {
                   what="encoded ParameterProblem packet: size, NextHdr/PayloadLen/type/code/pointer, quote = offender bytes", timeout=1800),
             ],
         },
+        {
+            "id": "pocketscion-local-sim", "engine": "kani", "package": "pocketscion",
+            "crate_dir": "crates/pocketscion",
+            "module": "/verif/kani/pocketscion/local_sim.rs",
+            "mod_path": "network::local::simulator::verif_local_sim",
+            "hooks": [("crates/pocketscion/src/network/local/simulator.rs", "mod verif_local_sim;")],
+            "anchors": [("crates/pocketscion/src/network/local/simulator.rs", ["maybe_create_scmp_reply"])],
+            "functions": ["maybe_create_scmp_reply"],
+            "harnesses": [
+                H("c14_sim_no_reply_to_scmp_error_or_malformed_n64", "B", tier="experimental", bound="packet <= 64 B (all bytes and length symbolic)",
+                  what="simulator: no SCMP reply to an SCMP error message or to a malformed SCMP packet", timeout=2400),
+            ],
+        },
     ],
 }
